@@ -302,7 +302,18 @@ fn case_stepwise(s: &mut Sink, r: &mut Rng, d: &Diag) {
         let mut cur = l.clone();
         let mut ok = true;
         let mut steps = vec![];
-        for &pos in &order {
+        // sometimes only the first few crossings are resolved one at a time and the REST is applied at once with `resolved_by`
+        // (its bits refer to the still unresolved crossings, in order)
+        let at_once_after = if r.chance(1, 2) { Some(r.below(n as u64) as usize) } else { None };
+        for (step, &pos) in order.iter().enumerate() {
+            if Some(step) == at_once_after {
+                let bits: Vec<Bit> = remaining.iter().map(|&p| Bit::from((k >> p) & 1 == 1)).collect();
+                steps.push(format!("resolved_by({})", bits.iter().map(|b| if b.is_one() { '1' } else { '0' }).collect::<String>()));
+                let c2 = cur.clone();
+                match guard(move || c2.resolved_by(&yui::bitseq::BitSeq::from_iter(bits))) { Some(x) => cur = x, None => ok = false }
+                s.count("S.stepwise.then-resolved_by");
+                break;
+            }
             let i = remaining.iter().position(|&p| p == pos).unwrap();   // index among the still unresolved ones
             let bit = (k >> pos) & 1 == 1;
             steps.push(format!("resolved_at({},{})", i, bit as u8));
